@@ -340,6 +340,22 @@ func runC10Enum(r *simkit.Run, c Cfg) {
 				}
 			}
 		}
+		// long CIDs (identity multihashes inline their content): whatever the
+		// encoder accepts, the decoder must give back
+		for _, n := range []int{100, 400, 500, 505, 506, 507, 508, 511, 512, 600, 5000} {
+			lc := cid.NewCidV1(cid.Raw, must(multihash.Sum(big(n), multihash.IDENTITY, -1)))
+			bm := message.Message{Cid: lc}
+			var b bytes.Buffer
+			if err := bm.MarshalCBOR(&b); err != nil {
+				r.Probe("long-cid-refused-by-encoder")
+				continue
+			}
+			got, err := decodeGuard(r, "a message with a long CID", b.Bytes())
+			if err != nil || !msgEqual(got, bm) {
+				r.Violate("c10.roundtrip", "message with a CID of %d bytes is encoded without error but does not decode from its own encoding: %v", lc.ByteLen(), err)
+				break
+			}
+		}
 		r.Probe("size-cap-messages")
 	}
 	r.NoteEnabled(2)
@@ -559,7 +575,7 @@ func runC10(r *simkit.Run, c Cfg) {
 	r.Advance(15 * time.Second)
 	r.Quiesce()
 	if !r.Failed() {
-		for _, g := range simkit.DumpGoroutines() {
+		for _, g := range simkit.DumpBubble() {
 			if g.Bubble != "" && g.CreatedByLibrary() {
 				r.Violate("c10.leak", "sender goroutine still alive after Send returned: %s [%s]", g.TopFunc(), g.State)
 				break
